@@ -1,0 +1,8 @@
+//go:build verif
+
+// Contracts for the deductive verifier in /verif (gv). Comments only.
+
+package core
+
+// C19: no process-wide state in the component library.
+//@ package-state props C19
